@@ -22,7 +22,7 @@ MIN_NONVACUOUS = {'quick': {'purity.same_problem_as_fresh': 250, 'purity.probe_d
                   'thorough': {'purity.same_problem_as_fresh': 2000}}
 OPS = ['setup_other', 'setup_other', 'costs_only', 'set_timegrid_none', 'optimize_extract', 'to_json', 'split', 'second_portfolio', 'structured_reuse',
        'asset_alone', 'failing_call', 'same_grid_other_prices', 'setup_other_tz', 'injected_failure', 'injected_failure', 'change_parameter', 'change_parameter',
-       'slp_and_cost_samples', 'fix_window_call']
+       'slp_and_cost_samples', 'fix_window_call', 'assets_alone_same_grid_reversed']
 _FP = {}
 
 
@@ -82,7 +82,7 @@ def other_grid(rng, spec, same_span=False):
 
 
 def run_case(rng, tier, case):
-    base = gen.gen_mixed_portfolio(rng, kinds=('contract', 'contract', 'contract', 'transport', 'storage', 'multi', 'plant', 'chp', 'structured', 'scaled', 'coarse', 'periodic', 'orderbook'),
+    base = gen.gen_mixed_portfolio(rng, kinds=('contract', 'contract', 'contract', 'transport', 'storage', 'multi', 'plant', 'chp', 'structured', 'scaled', 'coarse', 'periodic', 'orderbook', 'coarse_pair'),
                                    grid_kw={'steps': (4, 18)}, n_assets=(2, 5), n_nodes=(1, 3))
     spec = add_dicts(rng, base)
     spec = variant_forms(rng, spec)
@@ -143,6 +143,11 @@ def run_case(rng, tier, case):
                         sa = StructuredAsset(name='wrap', portfolio=Portfolio(sub), nodes=[sub[0].nodes[0]],
                                              start=None if s_ is None else pd.Timestamp(s_).to_pydatetime(), end=None if e_ is None else pd.Timestamp(e_).to_pydatetime())
                         sa.setup_optim_problem(pr2, tg2)
+                elif op == 'assets_alone_same_grid_reversed':
+                    # every asset set up on its own on the portfolio's grid object, last asset first (whatever the grid object remembers now
+                    # comes from another asset than in a fresh portfolio set-up)
+                    for a in list(P.assets)[::-1]:
+                        a.setup_optim_problem(b.prices, b.timegrid)
                 elif op == 'asset_alone':
                     for a in P.assets[:3]:
                         a.setup_optim_problem(pr2, tg2)
